@@ -207,10 +207,6 @@ JudgeDecapQ(e, rx, q, crc) ==
         \cup V(hasMeta /\ delim => ((r.t = "completed") <=> (kind \in {"complete", "end"})), <<"C02", "C01">>, "Rx.StatusMatchesKind")
         \cup V(hasMeta /\ delim /\ isStart => w.ok, <<"C13", "C05">>, "Rx.AcceptedStartIsWellFormed")
         \cup V(delim /\ w.why = "unknown_mandatory" => (r.t = "err" /\ cons = pl), <<"C13", "C10">>, "Rx.UnknownMandatoryDropsWhole")
-        \* "rejected as a whole": no reassembly is started, continued or ended by it - not even one of its own fragment id
-        \cup V(delim /\ w.why = "unknown_mandatory" /\ pre.ok /\ post.ok /\ ~inj =>
-                  (\A i \in 1..Len(pre.ctxs) : \E k \in 1..Len(post.ctxs) : post.ctxs[k] = pre.ctxs[i]) /\ Len(post.ctxs) = Len(pre.ctxs),
-               <<"C13", "C07">>, "Rx.UnknownMandatoryTouchesNothing")
         \cup V(labelOk, <<"C04">>, "Rx.ResolveNearest")
         \* complete packets
         \cup V(cMust => r.t = "completed", PP(<<"C01">>), "Rx.CompleteDeliver")
@@ -278,7 +274,6 @@ JudgeDecapQ(e, rx, q, crc) ==
          \cup H(hasMeta /\ delim, "Rx.OkConsumesPacket")
          \cup H(hasMeta /\ delim, "Rx.StatusMatchesKind") \cup H(hasMeta /\ delim /\ isStart, "Rx.AcceptedStartIsWellFormed")
          \cup H(delim /\ w.why = "unknown_mandatory", "Rx.UnknownMandatoryDropsWhole")
-         \cup H(delim /\ w.why = "unknown_mandatory" /\ pre.ok /\ post.ok /\ ~inj /\ Len(pre.ctxs) > 0, "Rx.UnknownMandatoryTouchesNothing")
          \cup H(hasMeta /\ isStart /\ w.lt = "ru", "Rx.ResolveNearest")
          \cup H(cMust, "Rx.CompleteDeliver") \cup H(wf /\ kind = "complete" /\ r.t = "completed", "Rx.CompleteContent")
          \cup H(wf /\ isStart /\ hasMeta /\ Len(w.exts) > 0, "Rx.ExtensionsReported")
